@@ -171,7 +171,8 @@ Inductive pstatus := SConnected | SNotConnected | SUnknown.
 Definition pstatus_eqb (a b : pstatus) : bool :=
   match a, b with SConnected, SConnected | SNotConnected, SNotConnected | SUnknown, SUnknown => true | _, _ => false end.
 
-Definition get_node (p : N) : M (option node) := with_r (pure (fun s => (find_node (nodes s) p, s))).
+Definition get_node_pure (p : N) (s : pset) : (option node) * pset := (find_node (nodes s) p, s).
+Definition get_node (p : N) : M (option node) := with_r (pure (get_node_pure p)).
 
 Definition status_of (s : pset) (p : N) : pstatus :=
   match find_node (nodes s) p with
@@ -182,30 +183,33 @@ Definition status_of (s : pset) (p : N) : pstatus :=
               | NotMember => SUnknown
               end
   end.
-Definition peer_status (p : N) : M pstatus := with_r (pure (fun s => (status_of s p, s))).
+Definition peer_status_pure (p : N) (s : pset) : pstatus * pset := (status_of s p, s).
+Definition peer_status (p : N) : M pstatus := with_r (pure (peer_status_pure p)).
 
-Definition peers : M (list N) := with_r (pure (fun s => (map fst (nodes s), s))).
+Definition peers_pure (s : pset) : (list N) * pset := (map fst (nodes s), s).
+Definition peers : M (list N) := with_r (pure peers_pure).
 
 (* sortedPeers: only len(...) is used by the mirrored code *)
-Definition connected_count : M nat :=
-  with_r (pure (fun s => (length (filter (fun qn => is_connected (n_st (snd qn))) (nodes s)), s))).
+Definition connected_count_pure (s : pset) : nat * pset := (length (filter (fun qn => is_connected (n_st (snd qn))) (nodes s)), s).
+Definition connected_count : M nat := with_r (pure connected_count_pure).
 
-Definition update_reputation_by_tick (p : N) : M (option Z) :=
-  with_w (pure (fun s =>
+Definition update_reputation_by_tick_pure (p : N) (s : pset) : (option Z) * pset :=
     match find_node (nodes s) p with
     | None => (None, s)
     | Some n => let r := rep_tick (n_rep n) in
                 (Some r, with_nodes s (set_node (nodes s) p (mkNode (n_st n) r (n_old n))))
-    end)).
+    end.
+Definition update_reputation_by_tick (p : N) : M (option Z) := with_w (pure (update_reputation_by_tick_pure p)).
 
 Definition new_node : node := mkNode NotConnected 0 false.    (* newNode + state[set] = notConnected *)
 
-Definition insert_peer_pure (s : pset) (p : N) : pset :=
+Definition insert_node (s : pset) (p : N) : pset :=
   match find_node (nodes s) p with
   | Some _ => s
   | None => with_nodes s (set_node (nodes s) p new_node)
   end.
-Definition insert_peer (p : N) : M unit := with_w (pure (fun s => (tt, insert_peer_pure s p))).
+Definition insert_peer_pure (p : N) (s : pset) : unit * pset := (tt, insert_node s p).
+Definition insert_peer (p : N) : M unit := with_w (pure (insert_peer_pure p)).
 
 Record variant := mkVar { v_report_continue : bool; v_addrep_inline : bool }.
 Definition fixed : variant := mkVar true true.
@@ -223,7 +227,7 @@ Definition add_reputation (v : variant) (p : N) (delta : Z) : M Z :=
     s <- get ;;
     (match find_node (nodes s) p with
      | Some _ => ret tt
-     | None => if v_addrep_inline v then modify (fun s => insert_peer_pure s p)
+     | None => if v_addrep_inline v then modify (fun s => insert_node s p)
                else insert_peer p        (* Lock under Lock *)
      end) ;;;
     pure (fun s => add_rep_node s p delta)).
@@ -246,8 +250,7 @@ Definition highest_not_connected : M (option N) :=
 Definition has_free_out (s : pset) : bool := (num_out s <? max_out s)%N.
 Definition has_free_in (s : pset) : bool := (num_in s <? max_in s)%N.
 
-Definition add_noslot (p : N) : M (option err) :=
-  with_w (pure (fun s =>
+Definition add_noslot_pure (p : N) (s : pset) : (option err) * pset :=
     if memN p (noslot s) then (None, s) else
     let s := with_noslot s (p :: noslot s) in
     match find_node (nodes s) p with
@@ -257,10 +260,10 @@ Definition add_noslot (p : N) : M (option err) :=
                 | Outgoing => (None, with_out s (u32_dec (num_out s)))
                 | _ => (None, s)
                 end
-    end)).
+    end.
+Definition add_noslot (p : N) : M (option err) := with_w (pure (add_noslot_pure p)).
 
-Definition remove_noslot (p : N) : M (option err) :=
-  with_w (pure (fun s =>
+Definition remove_noslot_pure (p : N) (s : pset) : (option err) * pset :=
     if negb (memN p (noslot s)) then (None, s) else
     let s := with_noslot s (removeN p (noslot s)) in
     match find_node (nodes s) p with
@@ -270,10 +273,10 @@ Definition remove_noslot (p : N) : M (option err) :=
                 | Outgoing => (None, with_out s (u32_inc (num_out s)))
                 | _ => (None, s)
                 end
-    end)).
+    end.
+Definition remove_noslot (p : N) : M (option err) := with_w (pure (remove_noslot_pure p)).
 
-Definition ps_disconnect (p : N) : M (option err) :=
-  with_w (pure (fun s =>
+Definition ps_disconnect_pure (p : N) (s : pset) : (option err) * pset :=
     match find_node (nodes s) p with
     | None => (Some ErrPeerDoesNotExist, s)
     | Some n =>
@@ -284,28 +287,28 @@ Definition ps_disconnect (p : N) : M (option err) :=
       | Outgoing => fin (with_out s (u32_dec (num_out s)))
       | _ => (Some ErrPeerDisconnected, s)
       end
-    end)).
+    end.
+Definition ps_disconnect (p : N) : M (option err) := with_w (pure (ps_disconnect_pure p)).
 
 (* lastConnectedAndDiscovered, reduced to the comparison updateTime makes with it *)
-Definition last_connected_old (p : N) : M (option bool) :=
-  with_r (pure (fun s =>
+Definition last_connected_old_pure (p : N) (s : pset) : (option bool) * pset :=
     match find_node (nodes s) p with
     | None => (None, s)
     | Some n => (Some (if mstate_eqb (n_st n) NotConnected then n_old n else false), s)
-    end)).
+    end.
+Definition last_connected_old (p : N) : M (option bool) := with_r (pure (last_connected_old_pure p)).
 
-Definition forget_peer (p : N) : M (option err) :=
-  with_w (pure (fun s =>
+Definition forget_peer_pure (p : N) (s : pset) : (option err) * pset :=
     match find_node (nodes s) p with
     | None => (Some ErrPeerDoesNotExist, s)
     | Some n =>
       if negb (n_rep n =? 0)
       then (None, with_nodes s (set_node (nodes s) p (mkNode NotMember (n_rep n) (n_old n))))
       else (None, with_nodes s (del_node (nodes s) p))      (* member of no set: removed *)
-    end)).
+    end.
+Definition forget_peer (p : N) : M (option err) := with_w (pure (forget_peer_pure p)).
 
-Definition try_outgoing (p : N) : M (option err) :=
-  with_w (pure (fun s =>
+Definition try_outgoing_pure (p : N) (s : pset) : (option err) * pset :=
     let ns := memN p (noslot s) in
     if negb (has_free_out s) && negb ns then (Some ErrOutgoingSlotsUnavailable, s) else
     match find_node (nodes s) p with
@@ -313,10 +316,10 @@ Definition try_outgoing (p : N) : M (option err) :=
     | Some n =>
       let s := with_nodes s (set_node (nodes s) p (mkNode Outgoing (n_rep n) (n_old n))) in
       (None, if ns then s else with_out s (u32_inc (num_out s)))
-    end)).
+    end.
+Definition try_outgoing (p : N) : M (option err) := with_w (pure (try_outgoing_pure p)).
 
-Definition try_accept_incoming (p : N) : M (option err) :=
-  with_w (pure (fun s =>
+Definition try_accept_incoming_pure (p : N) (s : pset) : (option err) * pset :=
     let ns := memN p (noslot s) in
     if negb (has_free_in s) && negb ns then (Some ErrIncomingSlotsUnavailable, s) else
     match find_node (nodes s) p with
@@ -324,7 +327,8 @@ Definition try_accept_incoming (p : N) : M (option err) :=
     | Some n =>
       let s := with_nodes s (set_node (nodes s) p (mkNode Ingoing (n_rep n) (n_old n))) in
       (None, if ns then s else with_in s (u32_inc (num_in s)))
-    end)).
+    end.
+Definition try_accept_incoming (p : N) : M (option err) := with_w (pure (try_accept_incoming_pure p)).
 
 (* ---------------------------------------------------------------- loops *)
 Inductive ctl := Next | Brk | Retn (e : option err).
